@@ -207,6 +207,8 @@ type streamRun struct {
 	winRounds map[uint64]bool // the rounds of those Puts
 	base      uint64
 	started   bool
+	from      uint64 // requested round
+	headAt    uint64 // the server's last stored round when the request arrived
 }
 
 type world struct {
@@ -475,6 +477,7 @@ func (w *world) do(e event) {
 		} else {
 			r.base = e.from
 		}
+		r.from, r.headAt = e.from, w.head
 		w.runs = append(w.runs, r)
 		go func() { r.done <- beacon.SyncChain(quiet(), gs, req{e.from}, fs) }()
 		w.waitStable(r)
@@ -712,6 +715,41 @@ func straddle(root, backend string) ([]uint64, string, error) {
 	return rounds, w.problem, nil
 }
 
+// holeWalk runs, on the real code only (the model's store is contiguous), a stream over a chained
+// store from which a middle round was deleted (a resync interrupted between its Del and its Put):
+// whatever the server sends must still be the beacons of the chain, each with the signature of the
+// round before it.
+func holeWalk(root, backend string) (outcome, error) {
+	sc := scenario{name: "chained-store-with-a-deleted-round", genesis: 7}
+	w, err := newWorld(backend, "chained", root, 7)
+	if err != nil {
+		return outcome{}, err
+	}
+	for i := 0; i < 6; i++ {
+		w.do(event{kind: evPut, d: int64(200 + i)})
+	}
+	if err := w.base.Del(context.Background(), 3); err != nil {
+		w.close()
+		return outcome{}, err
+	}
+	w.do(event{kind: evStart, cid: 1, from: 1})
+	r := w.runs[0]
+	for i := 0; i < 8 && r.phase != "done"; i++ {
+		if r.atGate {
+			w.do(event{kind: evRegister, k: 0})
+			continue
+		}
+		if r.pending == nil {
+			break
+		}
+		w.do(event{kind: evAck, k: 0, ok: true})
+	}
+	o := outcome{sc: sc, backend: backend, stack: "chained", obs: w.finish(), toks: w.toks, problem: ""}
+	o.head = w.head
+	w.close()
+	return o, nil
+}
+
 type scenario struct {
 	name    string
 	genesis int64
@@ -791,6 +829,18 @@ func witnessScenarios(rng *rand.Rand) []scenario {
 		}
 		out = append(out, scenario{name: name, genesis: 7, script: s6})
 	}
+	// a second stream from the same address while the first one's consumer has stopped reading (its
+	// Send never returns): the new stream must be served by its own worker
+	s9 := puts(rng, 2)
+	s9 = append(s9, event{kind: evStart, cid: 1, from: 0}, event{kind: evRegister, k: 0})
+	s9 = append(s9, puts(rng, 1)...) // stream 0 enters Send(3) and stays there
+	s9 = append(s9, event{kind: evStart, cid: 1, from: 2}, event{kind: evAck, k: 1, ok: true}, event{kind: evAck, k: 1, ok: true},
+		event{kind: evRegister, k: 1})
+	s9 = append(s9, puts(rng, 1)...)
+	s9 = append(s9, event{kind: evAck, k: 1, ok: true})
+	s9 = append(s9, puts(rng, 1)...)
+	s9 = append(s9, event{kind: evAck, k: 1, ok: true})
+	out = append(out, scenario{name: "reconnect-same-id-while-old-stream-stalled", genesis: 7, script: s9})
 	// consumers that are gone exactly in the hand-over: a beacon is stored between the end of the scan
 	// and AddCallback, and the Send of that beacon fails; one connection (address) after the other
 	var s7 []event
@@ -973,6 +1023,10 @@ type outcome struct {
 	stack   string
 	nreg    int // callbacks registered in the real callback store at the end
 	running int // SyncChain calls that have not returned
+	froms   []uint64
+	headsAt []uint64
+	head    uint64
+	idleReg []bool // per stream: registered, in its live phase and with no Send in progress at the end
 	obs     []obs
 	wins    []bool
 	winRnds []map[uint64]bool
@@ -1000,6 +1054,13 @@ func runOne(root string, sc scenario, backend, stack string) (outcome, error) {
 	}
 	if w.problem != "" {
 		anomalies++
+	}
+	o.head = w.head
+	for k, r := range w.runs {
+		o.froms = append(o.froms, r.from)
+		o.headsAt = append(o.headsAt, r.headAt)
+		kk, isReg := w.reg[r.cid]
+		o.idleReg = append(o.idleReg, isReg && kk == k && r.phase == "live" && r.pending == nil)
 	}
 	for _, r := range w.runs {
 		o.wins = append(o.wins, r.windowed)
@@ -1072,6 +1133,49 @@ func monitor(rep *emit.Report, o outcome) {
 					"delivered_sig": s.tok, "delivered_prev": s.prev, "stored_sig": st.tok, "stored_prev": st.prev, "position_in_stream": j}
 				failOnce(rep, "C11-delivered-beacon-differs-from-stored",
 					fmt.Sprintf("stream %d was sent round %d with (signature token %d, previous-signature token %d) but the store returns (%d, %d) for that round (-1 = empty); stack %s on %s", k, s.round, s.tok, s.prev, st.tok, st.prev, o.stack, o.backend), in2)
+			}
+		}
+		// (C01) on the chained scheme every beacon the server sends must verify: its signature and its
+		// previous signature are exactly those of that round in the reference chain
+		if o.stack == "chained" {
+			for j, s := range x.sent {
+				wantPrev, okp := o.toks[s.round-1]
+				if s.round == 0 {
+					wantPrev, okp = -1, true
+				}
+				if tok, ok := o.toks[s.round]; !ok || !okp || tok != s.tok || wantPrev != s.prev {
+					failOnce(rep, "C01-served-beacon-does-not-verify",
+						fmt.Sprintf("stream %d was sent round %d with previous-signature token %d and signature token %d; in the chain that round has previous signature %d and signature %d", k, s.round, s.prev, s.tok, wantPrev, tok),
+						map[string]interface{}{"scenario": o.sc.name, "backend": o.backend, "stack": o.stack, "stream": k, "round": s.round, "position_in_stream": j, "sent": rounds})
+					break
+				}
+			}
+		}
+		// (C05) a request for a round the server has stored is served that round; a request beyond the
+		// head is refused
+		if o.froms[k] != 0 {
+			inb := map[string]interface{}{"scenario": o.sc.name, "backend": o.backend, "stack": o.stack, "stream": k, "from_round": o.froms[k], "server_last_round": o.headsAt[k], "sent": rounds, "error": x.err}
+			if o.froms[k] <= o.headsAt[k] {
+				if x.err == "NoBeacon" && len(x.sent) == 0 || len(x.sent) > 0 && x.sent[0].round != o.froms[k] {
+					failOnce(rep, "C05-sync-server-refuses-its-head",
+						fmt.Sprintf("a sync request from round %d was not served that round although the server's last stored round was %d (error class %q, sent %v): a peer exactly one round behind can never catch up", o.froms[k], o.headsAt[k], x.err, rounds), inb)
+				}
+			} else if x.err != "NoBeacon" || len(x.sent) != 0 {
+				failOnce(rep, "C11-request-beyond-head-not-refused", "a request from a round beyond the server's head was not refused", inb)
+			}
+		}
+		// a registered live stream with no Send in progress has been handed every stored beacon, whatever
+		// the other streams' consumers do
+		if o.idleReg[k] && x.err == "" {
+			last := o.bases[k] - 1
+			if len(x.sent) > 0 {
+				last = x.sent[len(x.sent)-1].round
+			}
+			if last < o.head {
+				ins := map[string]interface{}{"scenario": o.sc.name, "backend": o.backend, "stack": o.stack, "stream": k, "sent": rounds, "server_last_round": o.head}
+				what := fmt.Sprintf("stream %d is registered, every Send it was given has returned, yet it was only sent up to round %d while the store is at round %d", k, last, o.head)
+				failOnce(rep, "C11-live-stream-starved", what, ins)
+				failOnce(rep, "C14-stream-wedged-behind-stalled-stream", what+" (it waits behind another stream whose consumer stopped reading)", ins)
 			}
 		}
 		// contiguous from the start round?
@@ -1207,8 +1311,32 @@ func Run(outDir string, seed int64, tier string) error {
 			failOnce(rep, "C11-stream-not-contiguous", fmt.Sprintf("a Put that had written to the store but not yet dispatched when the callback was registered: sent %v, expected %v", rounds, want), in)
 		}
 	}
+	// a chained store with a deleted middle round (real code and the C01 monitor only)
+	for _, b := range backends {
+		o, err := holeWalk(root, b)
+		if err != nil {
+			return err
+		}
+		rep.Evaluations += 10
+		rep.Count("stream/" + b + "/chained/" + o.sc.name)
+		for k, x := range o.obs {
+			var rounds []uint64
+			for _, s := range x.sent {
+				rounds = append(rounds, s.round)
+			}
+			for j, s := range x.sent {
+				wantPrev, okp := o.toks[s.round-1]
+				if tok, ok := o.toks[s.round]; !ok || !okp || tok != s.tok || wantPrev != s.prev {
+					failOnce(rep, "C01-served-beacon-does-not-verify",
+						fmt.Sprintf("round 3 was deleted from the store; stream %d (from round 1) was sent round %d with previous-signature token %d and signature token %d, but in the chain that round has previous signature %d and signature %d: the beacon does not verify", k, s.round, s.prev, s.tok, wantPrev, tok),
+						map[string]interface{}{"scenario": o.sc.name, "backend": b, "stack": "chained", "stream": k, "round": s.round, "position_in_stream": j, "sent": rounds, "deleted_round": 3})
+					break
+				}
+			}
+		}
+	}
 	rep.DistinctNontrivial = len(distinct)
-	rep.Rule = "real SyncChain over the daemon's store stack callback(append(scheme(back-end))) with a chained and an unchained scheme (beacons arrive with the previous signature set) and over the bare callback store, on memdb, trimmed bolt and untrimmed bolt; every delivered beacon (round, signature, previous signature) is compared with what the store returns for that round; the callbacks left in the real callback store (sync_total_callbacks gauge) are compared with the SyncChain calls still running; Send and AddCallback gated so that the harness places every Put relative to each scan step and registration; witness scripts (Puts whose context is cancelled between the commit and the dispatch or before the call while several streams are live, Put between scan end and AddCallback, Put during the scan, no Put in the window, same-id reconnect, start at 0 / head / beyond head; a Put paused between its store write and its dispatch while AddCallback runs - monitor only) and random scripts with 1-3 concurrent streams, reconnects, refused Sends and Puts with cancelled contexts; distinct = distinct (back-end, event); an evaluation = one event"
+	rep.Rule = "real SyncChain over the daemon's store stack callback(append(scheme(back-end))) with a chained and an unchained scheme (beacons arrive with the previous signature set) and over the bare callback store, on memdb, trimmed bolt and untrimmed bolt; every delivered beacon (round, signature, previous signature) is compared with what the store returns for that round; the callbacks left in the real callback store (sync_total_callbacks gauge) are compared with the SyncChain calls still running; Send and AddCallback gated so that the harness places every Put relative to each scan step and registration; witness scripts (Puts whose context is cancelled between the commit and the dispatch or before the call while several streams are live, Put between scan end and AddCallback, Put during the scan, no Put in the window, same-id reconnect, start at 0 / head / beyond head; a Put paused between its store write and its dispatch while AddCallback runs - monitor only; a chained store with a deleted middle round walked from below the hole - monitor only; a second stream from the same address while the first one's Send never returns) and random scripts with 1-3 concurrent streams, reconnects, refused Sends and Puts with cancelled contexts; distinct = distinct (back-end, event); an evaluation = one event"
 	if err := rep.Shard(outDir, "cases_stream", []string{"From DV Require Import Model.Stream Corr.StreamCorr."}, "scase", "mismatches", cases, descr, 60); err != nil {
 		return err
 	}
